@@ -2197,7 +2197,8 @@ class Dosini(object):
         except KeyError:
             global_variables = {}
 
-        for stage_index in sorted(stage_components):
+        # VV: the loader expects one file for each stage index 0..N-1, a stage without components gets a file too
+        for stage_index in range(max(stage_components) + 1 if stage_components else 0):
             if is_instance:
                 stage_path = os.path.join(output_dir, 'stages.d', 'stage%d.instance.conf' % stage_index)
             else:
